@@ -401,7 +401,7 @@ class CheckRun:
         clean = []
         pstates = set()
         pviol = 0
-        for kind, case, obs, viol, nontriv, trans, states, dt in run_cases(part, cases):
+        for kind, case, obs, viol, nontriv, trans, states, dt in self._run_confirmed(part, cases):
             n += 1
             self.evaluations += 1
             if kind != 'ok':
@@ -453,6 +453,29 @@ class CheckRun:
         print(f'[{self.prop}] part {part.name}: {n} executions, {len(pstates)} distinct observations, '
               f'{pviol} oracle failures, {time.time() - t0:.1f}s', flush=True)
 
+    def _run_confirmed(self, part, cases):
+        """
+        run_cases, but a hang or a dead worker is only reported after it has been confirmed: the case is run again,
+        alone on two workers, with four times the time limit (a loaded machine must not turn into an alarm).
+        """
+        held = []
+        for r in run_cases(part, cases):
+            if r[0] in ('timeout', 'crash'):
+                held.append(r)
+            else:
+                yield r
+        if held:
+            keep = part.timeout
+            part.timeout = keep * 4
+            try:
+                again = {digest(r[1]): r for r in run_cases(part, [r[1] for r in held], nproc=2)}
+            finally:
+                part.timeout = keep
+            for r in held:
+                r2 = again.get(digest(r[1]), r)
+                self.retried = getattr(self, 'retried', 0) + 1
+                yield r2
+
     def _violation(self, part, case, obs, v):
         k = match_known(self.known, self.prop, part.name, v['sig'])
         if k is not None:
@@ -499,6 +522,7 @@ class CheckRun:
             exhaustive=bool(self.exhaustive and not self.harness_errors),
             parts=self.parts,
             determinism_audit_reruns=self.audit_runs,
+            hang_or_crash_reruns=getattr(self, 'retried', 0),
             caps=self.caps,
             known_findings_hit=sorted(self.known_hits),
             explanation=('states = distinct observation digests of real-implementation executions; '
